@@ -117,13 +117,18 @@ class CanvasCache:
                     depends.extend(walk_depends(c))
             return depends
 
-        # use explicit depends_on if available from the canvas
-        depends_on = getattr(canvas, "depends_on", None)
-        if depends_on is None and hasattr(canvas, "children"):
+        # the child canvases this canvas contains must be cached themselves, also when
+        # the canvas names the widgets it depends on
+        contained = []
+        if hasattr(canvas, "children"):
             try:
-                depends_on = walk_depends(canvas)
+                contained = walk_depends(canvas)
             except LookupError:
                 return
+        # use explicit depends_on if available from the canvas
+        depends_on = getattr(canvas, "depends_on", None)
+        if depends_on is None:
+            depends_on = contained
         if depends_on:
             for w in depends_on:
                 if w not in cls._widgets:
